@@ -101,4 +101,66 @@ theorem verdicts_never_contradict (env : Env) (hse : SafeEnv env) (n1 n2 : Nat) 
     (h1 : subAlg env n1 g1 a b = .yes g') : subAlg env n2 g2 a b ≠ .no :=
   subAlg_never_rejects env hse n2 g2 a b ha hb (subAlg_sound_history env hse n1 g1 g' a b ha hb hj1 h1).1
 
+/-! ## transitivity: false as stated (known finding KF-C05-transitivity-null-field) -/
+
+namespace Trans
+def rNat : Ty := .record (.cons (.named "x") (.prim .nat) .nil)
+def rEmpty : Ty := .record .nil
+def rNull : Ty := .record (.cons (.named "x") (.prim .null) .nil)
+
+theorem sub12 : Sub [] rNat rEmpty := by
+  refine ⟨fun a b => a = rNat ∧ b = rEmpty, ?_, ⟨rfl, rfl⟩⟩
+  intro a b ⟨ha, hb⟩
+  subst ha hb
+  unfold F
+  right; right; right; right; right; right; right; left
+  exact ⟨_, _, rfl, rfl, by intro p hp; simp [Fields.toList] at hp⟩
+
+theorem sub23 : Sub [] rEmpty rNull := by
+  refine ⟨fun a b => a = rEmpty ∧ b = rNull, ?_, ⟨rfl, rfl⟩⟩
+  intro a b ⟨ha, hb⟩
+  subst ha hb
+  unfold F
+  right; right; right; right; right; right; right; left
+  refine ⟨_, _, rfl, rfl, ?_⟩
+  intro p hp
+  simp only [Fields.toList, List.mem_singleton] at hp
+  subst hp
+  simp only [lookupF]
+  decide
+
+theorem not_sub13 : ¬ Sub [] rNat rNull := by
+  intro ⟨R, hR, h⟩
+  have h1 := hR _ _ h
+  unfold F at h1
+  simp only [rNat, rNull] at h1
+  rcases h1 with h1 | h1 | h1 | h1 | h1 | h1 | h1 | h1 | h1 | h1 | h1 | h1 | h1 | h1 | h1
+  all_goals first
+    | (simp at h1; done)
+    | skip
+  obtain ⟨fs1, fs2, e1, e2, hall⟩ := h1
+  simp only [Ty.record.injEq] at e1 e2
+  subst e1 e2
+  have := hall (.named "x", .prim .null) (by simp [Fields.toList])
+  simp only [lookupF] at this
+  simp only [if_true] at this
+  have h2 := hR _ _ this
+  unfold F at h2
+  rcases h2 with h2 | h2 | h2 | h2 | h2 | h2 | h2 | h2 | h2 | h2 | h2 | h2 | h2 | h2 | h2
+  all_goals first
+    | (simp [isName] at h2; done)
+    | (obtain ⟨x, d, hx1, hx2, _⟩ := h2; simp [recFindFull, recFind, Env.find] at hx2; done)
+    | skip
+end Trans
+
+/-- **The subtype relation of the specification is not transitive**: `record { x : nat } <: record {}` (a field may be
+dropped) and `record {} <: record { x : null }` (a field may be added when `null <:` its type), but
+`record { x : nat } <: record { x : null }` would need `nat <: null`.  The property (and spec/Candid.md, "Transitivity
+of subtyping") claims transitivity; the rules as written, which the checker implements exactly (`checker_sound`,
+`checker_never_rejects_wrongly`), do not have it.  The same chain with `opt _` or `reserved` instead of `null` is
+fine (any type is a subtype of those); the witness is replayed on the implementation by `sub.trans`. -/
+theorem subtyping_is_not_transitive_at_a_null_field :
+    Sub [] Trans.rNat Trans.rEmpty ∧ Sub [] Trans.rEmpty Trans.rNull ∧ ¬ Sub [] Trans.rNat Trans.rNull :=
+  ⟨Trans.sub12, Trans.sub23, Trans.not_sub13⟩
+
 end Candid.Props.C05
